@@ -534,3 +534,40 @@ pub fn arb_related_pair() -> BoxedStrategy<(D, D)> {
         })
         .boxed()
 }
+
+/// Coefficients at machine-word boundaries: +-2^k + d for k in {7,8,15,16,31,32,63,64,126}
+/// and tiny values (0, +-1, +-2, ...).  Paired, they hit the classic overflow couples
+/// (i64::MIN with -1, 2^32 * 2^32, ...) that fast paths on narrower types get wrong.
+pub fn arb_word_coeff() -> BoxedStrategy<i128> {
+    prop_oneof![
+        3 => (proptest::sample::select(vec![7u32, 8, 15, 16, 31, 32, 63, 64, 126]), -2i128..=2, any::<bool>()).prop_map(|(k, d, neg)| {
+            let v = (1i128 << k) + d;
+            if neg { -v } else { v }
+        }),
+        2 => (-3i128..=3),
+        1 => (proptest::sample::select(vec![i8::MIN as i128, i16::MIN as i128, i32::MIN as i128, i64::MIN as i128, i64::MAX as i128, u64::MAX as i128, u32::MAX as i128])),
+    ]
+    .boxed()
+}
+
+pub fn arb_word_pair() -> BoxedStrategy<(D, D)> {
+    (arb_word_coeff(), arb_word_coeff(), arb_scale(), arb_scale(), 0u8..4)
+        .prop_map(|(a, b, p, q, k)| {
+            // k: make one operand an exact +-1 / +-10^s at its scale now and then
+            let y = match k {
+                0 => D::new(-(10i128.pow(q as u32)), q),
+                1 => D::new(10i128.pow(q as u32), q),
+                _ => D::new(b, q),
+            };
+            (D::new(a, p), y)
+        })
+        .boxed()
+}
+
+/// integer operand at a word boundary or tiny (-1, 0, 1, 2), of any type
+pub fn arb_word_int() -> BoxedStrategy<I> {
+    (0u8..9, arb_word_coeff()).prop_map(|(ty, v)| {
+        let (lo, hi) = int_range(ty);
+        I { ty, v: v.clamp(lo, hi) }
+    }).boxed()
+}
